@@ -374,7 +374,9 @@ func (c *Ctx) Finish() {
 		ps.WorkerDeaths += p.Stats.WorkerDeaths
 		ps.WatchdogFired += p.Stats.WatchdogFired
 		ps.Inconclusive += p.Stats.Inconclusive
+		ps.RerunAlone += p.Stats.RerunAlone
 		ps.Skipped += p.Stats.Skipped
+		ps.Firings = append(ps.Firings, p.Stats.Firings...)
 	}
 	if ps.Skipped > 0 {
 		c.inconcl = append(c.inconcl, fmt.Sprintf("the watchdog fired too often: %d job(s) were skipped", ps.Skipped))
@@ -383,7 +385,10 @@ func (c *Ctx) Finish() {
 	cov["worker_deaths"] = ps.WorkerDeaths
 	cov["watchdog_fired"] = ps.WatchdogFired
 	if ps.Inconclusive > 0 {
-		c.inconcl = append(c.inconcl, fmt.Sprintf("%d case(s) exceeded the watchdog but finished when re-run alone", ps.Inconclusive))
+		c.inconcl = append(c.inconcl, fmt.Sprintf("%d case(s) were given up in the pool and got no verdict from the run in a fresh process either (%s)", ps.Inconclusive, strings.Join(ps.Firings, "; ")))
+	}
+	if ps.RerunAlone > 0 {
+		cov["jobs_given_up_in_the_pool_and_judged_by_a_run_in_a_fresh_process"] = map[string]interface{}{"count": ps.RerunAlone, "first": ps.Firings}
 	}
 	if len(c.inconcl) > 0 {
 		cov["inconclusive"] = c.inconcl
